@@ -127,7 +127,7 @@ func genC06(seed int64, tier string) []caseOut {
 		n = 2500
 	}
 	r := rand.New(rand.NewSource(seed))
-	codes := []uint{18, 19, 18, 19, 17, 0x16, 0, 20, 1 << 20}
+	codes := []uint{18, 19, 18, 19, 17, 0x16, 0, 20, 1 << 20, 18, 19, 0x1012, 0xb212, 0xb213, 0x112, 0x1013, 1<<32 | 0x12, 0x92, 0x93}
 	var out []caseOut
 	for i := 0; i < n; i++ {
 		var v *jv
@@ -208,6 +208,19 @@ func genC04(seed int64, tier string) []caseOut {
 		}
 		code := []uint{18, 19, 18, 19, 17, 0}[r.Intn(6)]
 		m := k.jwk()
+		if i%7 == 3 {
+			// RSA-shaped JWK (members n, e and possibly nonce: "n" is a proper prefix of "nonce")
+			kind = "RSA"
+			nb := make([]byte, 64+r.Intn(200))
+			rngReader{r}.Read(nb)
+			m = map[string]interface{}{"kty": "RSA", "crv": "", "x": "", "y": "", "n": b64(nb), "e": "AQAB"}
+			if k.nonce != "" || i%14 == 3 {
+				if k.nonce == "" {
+					k.nonce = b64(nb[:16])
+				}
+				m["nonce"] = k.nonce
+			}
+		}
 		jwk := toJWK(m)
 		rv, rerr := commitment.GetRevealValue(jwk, code)
 		c, cerr := commitment.GetCommitment(jwk, code)
@@ -227,10 +240,14 @@ func genC04(seed int64, tier string) []caseOut {
 			m2["nonce"] = b64(nb)
 		} else {
 			which = "x"
-			x := m2["x"].(string)
-			m2["x"] = x[:len(x)-2] + "AA"
-			if m2["x"] == x {
-				m2["x"] = x[:len(x)-2] + "BB"
+			member := "x"
+			if kind == "RSA" {
+				member, which = "n", "n"
+			}
+			x := m2[member].(string)
+			m2[member] = x[:len(x)-2] + "AA"
+			if m2[member] == x {
+				m2[member] = x[:len(x)-2] + "BB"
 			}
 		}
 		c2, c2err := commitment.GetCommitment(toJWK(m2), code)
